@@ -155,7 +155,12 @@ def oracle(c, o):
         if tA is None or tB is None:
             continue
         lam, phi = Fr(cc["lam"]), Fr(cc["phi"])
-        fails += M.compare(oA, oB, units_transform(lam, phi), lam * tA + tB + Fr(1, 10 ** 9) * lam * max(abs(C.ffloat(v)) for v in oA["U"]), what)
+        diff = M.compare(oA, oB, units_transform(lam, phi), lam * tA + tB + Fr(1, 10 ** 9) * lam * max(abs(C.ffloat(v)) for v in oA["U"]), what)
+        if diff and (tiny_entries(oA) or tiny_entries(oB)):
+            # both systems solve, but one of them lost stiffness terms to the absolute cut-off: the listed finding's input class
+            KNOWN.append("K-C09-assembly-cutoff: a generated structure solves to different results in a unit system where some slice stiffness term is under the absolute 1e-10 cut-off")
+            continue
+        fails += diff
     return fails[:6]
 
 
